@@ -312,6 +312,48 @@ func psInitSparse(a kv) string {
 	return fmt.Sprintf("ok failed=%d lost=%d", failed, lost)
 }
 
+// psLookups: several controllers of one daemon look their stored entries up again and again, each at its own pace (jittered
+// pauses), for `ms` milliseconds: every load of an intact stored entry returns that entry (seed C14l: a reference-counted
+// shared database handle was closed by its last user while the next one was taking it).
+func psLookups(a kv) string {
+	workers, ms, seed := a.int("workers", 6), a.int("ms", 1200), a.int("seed", 1)
+	want := map[string]map[int]int{}
+	for i := 0; i < workers; i++ {
+		id := fmt.Sprintf("lk%d", i)
+		want[id] = map[int]int{0: seed, 255: 100 + i}
+		if err := curPs.p.SaveFanPwmMap(id, want[id]); err != nil {
+			return "err"
+		}
+	}
+	deadline := time.Now().Add(time.Duration(ms) * time.Millisecond)
+	var wg sync.WaitGroup
+	var failed, bad, loads int64
+	for w := 0; w < workers; w++ {
+		wg.Add(1)
+		go func(w int) {
+			defer wg.Done()
+			id := fmt.Sprintf("lk%d", w)
+			x := uint32(seed*977 + w*131 + 7)
+			for time.Now().Before(deadline) {
+				got, err := persistence.NewPersistence(curPs.path).LoadFanPwmMap(id)
+				atomic.AddInt64(&loads, 1)
+				if err != nil {
+					atomic.AddInt64(&failed, 1)
+				} else if got[0] != want[id][0] || got[255] != want[id][255] {
+					atomic.AddInt64(&bad, 1)
+				}
+				x = x*1664525 + 1013904223
+				time.Sleep(time.Duration(x>>22) * time.Microsecond * time.Duration(1+w%3) / 3) // 0 .. ~1 ms, a pace of its own
+			}
+		}(w)
+	}
+	wg.Wait()
+	for id := range want {
+		_ = curPs.p.DeleteFanPwmMap(id)
+	}
+	return fmt.Sprintf("ok failed=%d bad=%d", failed, bad)
+}
+
 func init() {
 	cleanups = append(cleanups, psClose)
 	register("ps", func(op string, a kv) string {
@@ -329,6 +371,8 @@ func init() {
 			return psInitBusy(a)
 		case "ps.delsave":
 			return psDelSave(a)
+		case "ps.lookups":
+			return psLookups(a)
 		case "ps.initsparse":
 			return psInitSparse(a)
 		case "ps.reopen":
